@@ -51,6 +51,13 @@ def main(argv):
         _reexec_with_fixed_hashseed()
         from dst import minimise
         return minimise.minimise_file(argv[2], int(argv[3]) if len(argv) > 3 else 60)
+    if cmd == 'chain':
+        # internal: run one spec under the current PYTHONHASHSEED, print chain
+        from dst.oracles import c18
+        with open(argv[2]) as f:
+            spec = json.load(f)
+        print('CHAIN ' + json.dumps([c18.chain_of(spec)[0], None]))
+        return 0
     if cmd == 'selftest':
         from dst import selftest
         return selftest.main(argv[2:])
